@@ -1,22 +1,28 @@
 #!/bin/bash
 # Applies every seeded change to a scratch copy of the repository ($VP_RUN_REPO under `vp run --with-repo`,
-# else a temporary git worktree), runs every check (quick) against it and prints a detection matrix.
+# else a temporary git worktree), runs checks (quick) against it and prints a detection matrix.
 # Never touches /repo's working tree.
+#   MODE=own (default): each change against the check of the property it targets (regression of the seeded set, ~1 h)
+#   MODE=all          : each change against all twenty checks (~10 h)
+#   CHECKS="C01 C12"  : explicit list, overrides MODE
 cd "$(dirname "$0")/.."
 V=$(pwd)
 R="${VP_RUN_REPO:-}"
-if [ -z "$R" ]; then R=$(mktemp -d /tmp/seedmatrix.XXXX)/repo; git -C /repo worktree add -q --detach "$R" HEAD; OWN=1; fi
-CHECKS="${CHECKS:-$(seq -f 'C%02g' 1 20)}"
+if [ -z "$R" ]; then R=$(mktemp -d /tmp/seedmatrix.XXXX)/repo; git -C /repo worktree add -q --detach "$R" HEAD; OWN_WT=1; fi
+MODE="${MODE:-own}"
 OUT="$V/seeded/matrix.txt"; : > "$OUT"
+echo "# seeded change: checks (quick tier) that report it; mode=$MODE; repository $(git -C "$R" rev-parse --short HEAD)" >> "$OUT"
 for d in "$V"/seeded/C*/; do
   id=$(basename "$d")
   git -C "$R" checkout -q -- . ; git -C "$R" apply "$d/patch.diff" || { echo "$id: patch does not apply" | tee -a "$OUT"; continue; }
+  if [ -n "${CHECKS:-}" ]; then L="$CHECKS"; elif [ "$MODE" = all ]; then L=$(seq -f 'C%02g' 1 20); else L=${id%%-*}; fi
   line="$id:"
-  for c in $CHECKS; do
+  for c in $L; do
     out=$(VERIF_REPO="$R" ./run.sh $c quick 2>&1); rc=$?
-    case $rc in 0) ;; 1) line="$line $c";; *) line="$line $c(harness-error)";; esac
+    case $rc in 0) [ "$MODE" = own ] && line="$line $c(NOT-REPORTED)";; 1) line="$line $c";; *) line="$line $c(harness-error)";; esac
   done
   echo "$line" | tee -a "$OUT"
   git -C "$R" checkout -q -- .
 done
-[ -n "${OWN:-}" ] && git -C /repo worktree remove --force "$R"
+[ -n "${OWN_WT:-}" ] && git -C /repo worktree remove --force "$R"
+exit 0
